@@ -3,7 +3,8 @@
 P:  coq/Stats/{Model,Inv,Proofs,Props}.v — registries + call sites of src/stats*.rs / client.rs / pool.rs as a
     state machine over message-granularity ops; theorems by induction over every history.
 T2: wire harness.  Histories of logins (ok / wrong password / unknown db / admin), simple and extended
-    transactions, checkout failures (pool exhausted, backend down, failed health check), replica bans, clean (X)
+    transactions with replies from one row to several relay buffers and COPY OUT, CancelRequest connections, checkout
+    failures (pool exhausted, backend down, failed health check, unknown shard), replica bans, clean (X)
     and abrupt (socket close) exits at idle / in a transaction / while waiting, shutdown, and the confirmed panic
     inputs (the task still panics; since /repo ca5e3a4 its row is removed by Drop for Client — a row that stays, or
     a client retrying its next candidate that is shown idle (repaired by b38aae6), is a VIOLATION).  After every quiescent point: pooler::snapshot (registries through the public API) AND the admin
@@ -17,9 +18,14 @@ import vlib
 from props import wirelib as W
 
 COQ_FILES = ["Stats/Model.v", "Stats/Inv.v", "Stats/Proofs.v", "Stats/Props.v"]
-PREAMBLE = """From Coq Require Import Arith Bool List.
+PREAMBLE = """From Coq Require Import Arith NArith Bool List.
 From PV Require Import Stats.Model.
 Import ListNotations.
+(* byte counts reach tens of thousands: they enter as [N.to_nat n] and leave as N (a unary literal that size
+   overflows coqc's stack in parsing and printing, not in vm_compute) *)
+Definition obsN (o : list (list nat) * list (list nat) * list (list nat) * list nat * list (list nat)) :=
+  match o with (a, b, c, d, e) =>
+    (map (map N.of_nat) a, map (map N.of_nat) b, map (map N.of_nat) c, map N.of_nat d, map (map N.of_nat) e) end.
 Fixpoint first_disabled (cf : cfg) (t : st) (ops : list op) (n : nat) : option nat :=
   match ops with [] => None | o :: r => if enabled cf t o then first_disabled cf (step cf t o) r (S n) else Some n end.
 """
@@ -35,6 +41,15 @@ PANICS = {
     "close-empty": ("4300000004", "any", False),         # Close with empty body: Close::try_from
     "parse-trunc": ("500000000561", "idle", True),       # Parse "a" without terminators, query parser on: parse() unwrap
 }
+# one request cycle each, whatever the size of the reply (the pooler relays it in buffers of 8196 bytes)
+SIMPLE_SQL = {"select": "%s SELECT 1", "begin": "%s BEGIN", "commit": "%s COMMIT", "rollback": "%s ROLLBACK",
+              "error": "%s SELECT 1 /*mock: error*/",
+              "rows50": "%s SELECT 1 /*mock: rows=50, size=20*/",          # many rows, one buffer
+              "bigrow": "%s SELECT 1 /*mock: rows=1, size=9000*/",         # one row above the 8196-byte relay buffer
+              "buffers": "%s SELECT 1 /*mock: rows=30, size=1000*/",       # ~33 kB: several relay buffers
+              "copyout": "%s COPY t TO STDOUT /*mock: rows=20, size=500*/",   # COPY OUT, ~10 kB
+              "slow": "%s SELECT 1 /*mock: sleep=350*/"}
+BIG = ["rows50", "bigrow", "buffers", "copyout"]
 CSTATE = {0: "idle", 1: "waiting", 2: "active"}
 SSTATE = {0: "login", 1: "active", 2: "tested", 3: "idle"}
 F_PANIC = "F31-panic-leaks-client-row"     # repaired by /repo ca5e3a4: a recurrence is a violation
@@ -213,14 +228,14 @@ class Hist:
             if x["hold"] is None:      # the comment is only looked at outside a transaction (try_execute_command)
                 x["shard"] = shard[1] if shard[0] == "id" else "?"
         lab = "r%d" % (len(self.steps))
-        if what in ("select", "begin", "commit", "rollback", "error"):
-            sql = {"select": "%s SELECT 1", "begin": "%s BEGIN", "commit": "%s COMMIT", "rollback": "%s ROLLBACK",
-                   "error": "%s SELECT 1 /*mock: error*/"}[what] % t
-            msgs = [{"t": "Q", "sql": sql}]
+        if what in SIMPLE_SQL:
+            msgs = [{"t": "Q", "sql": SIMPLE_SQL[what] % t}]
             proto = "Q"
-        elif what == "ext":
-            msgs = [{"t": "P", "name": "", "sql": t + " SELECT 2", "types": []}, {"t": "B", "portal": "", "name": "", "params": []},
-                    {"t": "E", "portal": "", "max": 0}, {"t": "S"}]
+        elif what in ("ext", "ext2", "extbig"):
+            # Parse/Bind/Execute/Sync; ext2: two Bind/Execute pairs before the one Sync; extbig: a reply of several relay buffers
+            body = " SELECT 2 /*mock: rows=30, size=1000*/" if what == "extbig" else " SELECT 2"
+            be = [{"t": "B", "portal": "", "name": "", "params": []}, {"t": "E", "portal": "", "max": 0}]
+            msgs = [{"t": "P", "name": "", "sql": t + body, "types": []}] + be * (2 if what == "ext2" else 1) + [{"t": "S"}]
             proto = "ext"
         else:
             msgs = [{"t": "S"}]
@@ -289,6 +304,30 @@ class Hist:
         if shard is not None and shard < self.w.get("shards", 1):
             x["shard"] = shard
         self.sample({"kind": "noop", "c": c, "what": sql, "set_shard": shard, "rlabel": lab})
+
+    def cancel(self, target, how):
+        """a CancelRequest connection.  how: valid (the target's pid and key) | wrong (its pid, another key) | unknown"""
+        step = {"op": "cancel", "c": "cancel", "timeout_ms": 400}
+        if how == "valid":
+            step["of"] = target
+        elif how == "wrong":
+            step.update({"pid_of": target, "key": 123456789})
+        else:
+            step.update({"pid": 1357911, "key": 24681012})
+        self.steps.append(step)
+        self.sample({"kind": "cancel", "target": target if how != "unknown" else None, "how": how})
+
+    def run_and_cancel(self, c):
+        """c sends a statement that takes 350 ms; while it runs a CancelRequest with c's key arrives"""
+        t = self.tag(c)
+        lab = "r%d" % len(self.steps)
+        self.steps.append({"op": "send", "c": c, "msgs": [{"t": "Q", "sql": SIMPLE_SQL["slow"] % t}]})
+        self.steps.append({"op": "sleep", "ms": 60})
+        self.sample({"kind": "run_start", "c": c, "tag": t})
+        self.steps.append({"op": "cancel", "c": "cancel", "of": c, "timeout_ms": 400})
+        self.sample({"kind": "cancel", "target": c, "how": "valid-running"})
+        self.steps.append({"op": "recv", "c": c, "until": "Z", "timeout_ms": 2500, "label": lab})
+        self.sample({"kind": "req", "c": c, "proto": "Q", "what": "slow", "tag": t, "rlabel": lab, "shard": None})
 
     def leave(self, c, how):
         """how: close | term"""
@@ -372,6 +411,8 @@ def random_history(rng, idx, nact):
         if alive:
             acts += [("request", 10), ("leave", 2), ("panic", 1 if rng.random() < 0.2 else 0)]
         acts += [("admin", 1), ("backend", 1)]
+        if alive:
+            acts.append(("cancel", 2))
         kinds, wts = zip(*[(a, x) for a, x in acts if x > 0])
         act = rng.choices(kinds, wts)[0]
         if act == "connect":
@@ -434,7 +475,7 @@ def random_history(rng, idx, nact):
                     h.request(c, what, shard=sh)
                     continue
                 exhausted = h.hold[a["id"]] >= h.pool(1)["size"]
-                what = rng.choice(["select", "select", "begin", "begin", "ext", "error"])
+                what = rng.choice(["select", "select", "begin", "begin", "ext", "error", "ext2", rng.choice(BIG)])
                 h.request(c, what, spawn_sample=exhausted and rng.random() < 0.5, shard=sh)
                 continue
             a = h.addr_of(c)
@@ -443,15 +484,25 @@ def random_history(rng, idx, nact):
                 h.close_while_waiting(c)
                 continue
             if x["hold"] is None:
-                what = rng.choice(["select", "select", "begin", "begin", "ext", "error", "sync" if (w["kind"] == "single" and h.pool(1)["size"] == 1 and not w["hc_always"]) else "select"])
+                what = rng.choice(["select", "begin", "begin", "ext", "error", "ext2", rng.choice(BIG + ["extbig"]), "sync" if (w["kind"] == "single" and h.pool(1)["size"] == 1 and not w["hc_always"]) else "select"])
             elif x["intxn"]:
-                what = rng.choice(["select", "ext", "commit", "commit", "rollback", "error"])
+                what = rng.choice(["select", "ext", "commit", "commit", "rollback", "error", "ext2", rng.choice(BIG + ["extbig"])])
             else:
-                what = rng.choice(["select", "ext", "begin", "error"])
+                what = rng.choice(["select", "ext", "begin", "error", rng.choice(BIG)])
             h.request(c, what, spawn_sample=exhausted and rng.random() < 0.6)
         elif act == "leave":
             c = rng.choice(alive)
             h.leave(c, rng.choice(["close", "term"]))
+        elif act == "cancel":
+            c = rng.choice(alive)
+            x = h.cl[c]
+            a = h.addr_of(c) if not x["admin"] else None
+            if (not x["admin"] and x["hold"] is None and isinstance(a, dict) and a["backend"] not in h.down and w["mode"] != "session"
+                    and h.hold[a["id"]] < h.pool(x["pool"])["size"] and rng.random() < 0.4):
+                h.nconn[a["id"]] = max(h.nconn[a["id"]], h.hold[a["id"]] + 1)
+                h.run_and_cancel(c)
+            else:
+                h.cancel(c, rng.choice(["valid", "valid", "wrong", "unknown"]))
         elif act == "panic":
             c = rng.choice(alive)
             x = h.cl[c]
@@ -586,6 +637,44 @@ def directed_histories(rng):
     h.request("c1", "select", shard=("id", 1), spawn_sample=True)     # shard 1 is exhausted: second failure, disconnected
     h.request("c2", "commit")
     out.append(h)
+    # CancelRequest connections: pseudo-clients that are never registered and must change nothing — whoever they name
+    for kind in ("single", "session"):
+        w = make_world(kind, rng, limit=None, hc_always=False, size=2)
+        h = Hist(w, "cancel-%s" % kind)
+        h.connect("c1", 1)
+        h.connect("c2", 1)
+        h.cancel("c1", "valid")             # an idle client: its row must stay
+        h.cancel("c1", "wrong")             # its pid with a wrong secret key
+        h.cancel("c1", "unknown")
+        h.cancel(ADMIN, "valid")
+        h.request("c1", "begin")
+        h.cancel("c1", "valid")             # holds a server: forwarded to the backend
+        h.cancel("c1", "wrong")
+        h.request("c1", "select")
+        h.request("c1", "commit")
+        if kind == "single":
+            h.run_and_cancel("c2")          # a statement is running
+        h.request("c2", "select")
+        h.cancel("c2", "valid")
+        h.leave("c1", "term")
+        h.cancel("c1", "valid")             # names a client that has gone
+        h.leave("c2", "close")
+        out.append(h)
+    # replies of every size: queries are request cycles, not relay buffers (8196 bytes); several Executes per Sync
+    for kind in ("single", "session", "two"):
+        w = make_world(kind, rng, limit=None, hc_always=False, size=2)
+        h = Hist(w, "reply-sizes-%s" % kind)
+        h.connect("c1", 1)
+        h.connect("c2", 1)
+        for what in ("select", "rows50", "bigrow", "buffers", "copyout", "ext2", "extbig"):
+            h.request("c1", what)
+        h.request("c2", "begin")
+        for what in ("buffers", "copyout", "ext2", "extbig", "bigrow"):
+            h.request("c2", what)
+        h.request("c2", "commit")
+        h.leave("c1", "term")
+        h.leave("c2", "term")
+        out.append(h)
     # failed health check with a replica (client error counter, ban) and with a primary
     for role in ("replica", "primary"):
         w = make_world("replica", rng, limit=None, hc_always=True, size=1)
@@ -692,6 +781,8 @@ class Derive:
         self.done_req = set()
         self.sidmap, self.sidinfo = {}, {}
         self.initer = {}         # client -> blocked on a candidate inside pool.get
+        self.started_free = set()
+        self.lo_seq = -1
         self.shard = {}          # sharded world: client -> the router's shard (None nothing selected, "?" some valid shard)
         self.banned = set()      # replica addresses on the ban list (a checkout that meets a banned address unbans it
                                  # - it is the only replica - and forces a health check: pool.rs try_unban / force_healthcheck)
@@ -749,7 +840,7 @@ class Derive:
         cur = self.snaps[entry["label"]].get("task_results", [])
         self.new_tasks = cur[len(self.prev_tasks):]      # how the client tasks that ended in this segment ended
         self.prev_tasks = cur
-        self.cur_hi = hi
+        self.cur_hi, self.lo_seq = hi, lo
         win = [e for e in self.ev if lo < e["seq"] <= hi]
         # server connections opened in this segment
         for e in win:
@@ -945,7 +1036,12 @@ class Derive:
         # served
         s = self.held[c]
         if entry["proto"] != "sync":
-            ops.append("QueryDone %d %d" % (cid, s))
+            nq = 1
+            if SELFTEST_QUERY_PER_BUFFER:
+                b, conn = self.sidinfo[s]
+                out = sum(e["nbytes"] for e in self.ev if e.get("ev") == "out" and e["who"] == b and e["conn"] == conn and self.lo_seq < e["seq"] <= self.cur_hi)
+                nq = max(1, -(-out // 8197))
+            ops += ["QueryDone %d %d" % (cid, s)] * nq
             self.ledger[c][0] += 1
         status = zs[-1].get("status") if zs else None
         self.intxn[c] = status in ("T", "E")
@@ -959,6 +1055,27 @@ class Derive:
                 self.srv[s]["holder"] = None
                 del self.held[c]
                 self.maybe_shutdown_exit(c, ops)
+
+    def k_cancel(self, entry, ops, drops):
+        # a pseudo-client: Client::cancel, handle() returns before register; nothing in the statistics may move
+        t = entry.get("target")
+        self.outcomes.append(("cancel", entry["how"], ("holding" if t in self.held else "free") if t else "-",
+                              "forwarded" if any(e.get("ev") == "cancel" and self.lo_seq < e["seq"] <= self.cur_hi for e in self.ev) else "dropped"))
+        ops.append("CancelConn %d" % (self.cid(t) if t else 999))
+
+    def k_run_start(self, entry, ops, drops):
+        """the statement has reached a backend and is running there: the client owns the server, no reply yet"""
+        c, cid = entry["c"], self.cid(entry["c"])
+        if self.phase.get(c) != "handle" or c in self.held:
+            return
+        s = self.find_server(entry["tag"])
+        if s is None:
+            self.notes.append("statement %s did not reach a backend" % entry["tag"])
+            return
+        ops += ["CheckoutStart %d" % cid, "CandidateTry %d" % cid, "CheckoutOk %d %d" % (cid, s)]
+        self.held[c] = s
+        self.srv[s]["holder"] = c
+        self.started_free.add(entry["tag"])
 
     def k_leave(self, entry, ops, drops):
         c = entry["c"]
@@ -1061,13 +1178,13 @@ class Derive:
 
 
 def render_ops(ops):
-    return "[" + "; ".join(ops) + "]"
+    return "[" + "; ".join(re.sub(r"\b(\d{4,})\b", r"(N.to_nat \1)", o) for o in ops) + "]"
 
 
 def coq_expr(h, segs):
     cf = "[" + "; ".join("(%d, %s)" % (a["pool"], "true" if a["replica"] else "false") for a in h.w["addrs"]) + "]"
     allops = [o for s in segs for o in s]
-    return ("let cf := %s in let segs := [%s] in let ops := concat segs in (run_samples cf %d init segs, first_disabled cf init ops 0)"
+    return ("let cf := %s in let segs := [%s] in let ops := concat segs in (map obsN (run_samples cf %d init segs), first_disabled cf init ops 0)"
             % (cf, "; ".join(render_ops(s) for s in segs), len(h.w["pools"])))
 
 
@@ -1176,12 +1293,15 @@ def backend_ledger(h, res, upto, last_snap):
         mine = {e["conn"] for e in res["events"] if e.get("who") == b and e.get("ev") == "open" and str(e.get("params", {}).get("user", "")).startswith("c18u")}
         evs = [e for e in res["events"] if e.get("who") == b and e.get("ev") in ("msg", "close") and e.get("conn") in mine]
         cycles = done = 0
+        outs = [e for e in res["events"] if e.get("who") == b and e.get("ev") == "out" and e.get("conn") in mine]
         for i, e in enumerate(evs):
             if e["ev"] != "msg" or e["seq"] > upto:
                 continue
             sql = e.get("detail", {}).get("sql") or ""
             if not ((e["tag"] == "Q" and "/*c18:" in sql) or e["tag"] == "S"):
                 continue
+            if not any(o["seq"] > e["seq"] and o["seq"] <= upto for o in outs if o["conn"] == e["conn"]):
+                continue      # still running on the backend (no reply written yet): not a completed cycle
             cycles += 1
             nxt = next((x for x in evs[i + 1:] if x["conn"] == e["conn"] and "state" in x), None)
             if nxt is not None:
@@ -1198,6 +1318,7 @@ def backend_ledger(h, res, upto, last_snap):
 # =========================================================================================== one history
 
 WSI_VARIANTS = [(False, 0), (False, 1), (True, 0), (True, 1)]
+SELFTEST_QUERY_PER_BUFFER = False    # self-test only: derive one QueryDone per 8196-byte relay buffer of the reply
 
 
 def derive_history(h, res, variant=(False, 0)):
@@ -1377,7 +1498,7 @@ def replay_dict(h, res, verdict, sample):
 def check(run):
     quick = run.tier == "quick"
     run.assumptions += [
-        "Coq 8.16.1 kernel + vm_compute; no axioms (Print Assumptions: closed under the global context for all 11 theorems)",
+        "Coq 8.16.1 kernel + vm_compute; no axioms (Print Assumptions: closed under the global context for all 13 theorems)",
         "the model transcribes the statistics call sites of src/client.rs, src/pool.rs, src/server.rs, src/stats*.rs at message granularity (validated on every run: model vs registries vs admin console at every quiescent point of every history)",
         "client / server ids (random i32) do not collide (2^-32 per pair): a collision makes client_register ignore the second client",
         "atomics with Ordering::Relaxed and the RwLock-protected registries behave sequentially consistently at op granularity",
@@ -1462,7 +1583,7 @@ def report(run, hs, results, verdicts, proof_ok, log):
     run.cov["distinct_nontrivial"] = len(distinct)
     run.cov["rule"] = ("one evaluation = one quiescent sample (registries via public API + 5 admin SHOW commands) compared with the model; histories: %d directed "
                        "(every confirmed panic input at idle / in transaction / admin, every way of leaving, failure limit, lone Sync, shutdown, health-check failure and server death on primary and replica, "
-                       "waiting while retrying the next candidate, tested and login states, sharded pool: shard by comment / SET SHARD / sharding key / default_shard, unknown shard refused before the candidate loop) + seeded random over 5 world shapes (single, two pools, primary+replica, session mode, sharded 2-3 shards; pool_size 1-2, health check always/never, checkout_failure_limit); "
+                       "waiting while retrying the next candidate, tested and login states, CancelRequest connections (valid key of an idle / holding / running client, wrong key, unknown pid, a client that has gone), replies of 1 row / 50 rows / one 9 kB row / 33 kB (several 8196-byte relay buffers) / COPY OUT / two Executes per Sync, sharded pool: shard by comment / SET SHARD / sharding key / default_shard, unknown shard refused before the candidate loop) + seeded random over 5 world shapes (single, two pools, primary+replica, session mode, sharded 2-3 shards; pool_size 1-2, health check always/never, checkout_failure_limit); "
                        "distinct = distinct (world kind, action, detail, canonical model observation)" % (len(hs) - sum(1 for h in hs if h.name.startswith("rnd"))))
     run.cov["samples"] = samples[:6]
     run.cov["input_distribution"] = {"histories": len(hs), "by_world": kinds, "histories_with_panic": npanic_hist, "outcomes": dict(sorted(outcome_hist.items(), key=lambda kv: -kv[1])[:40]),
